@@ -1,6 +1,6 @@
 """Verification of one function against its contract: symbolic pre-state ("world"), execution of the real
 body, postcondition / frame / no-panic obligations."""
-import time
+import time, re
 import z3
 from .core import (Engine, State, Ptr, NIL, SliceV, NILSLICE, Closure, NILFUNC, Iface, NILIFACE, StructV, ArrV, ZArr,
                    TupleV, ChanV, NILCHAN, StrV, Opaque, Unsupported, Oblig, concrete_int, concrete_bool, idx_term,
@@ -208,7 +208,7 @@ def frame_obligations(eng, ceval, pre, post, lvs, prefix, only_objs=None, names=
                 return
             depth = 1
             srt = v0.term.sort().range()
-            while z3.is_array_sort(srt):
+            while isinstance(srt, z3.ArraySortRef):
                 depth += 1
                 srt = srt.range()
             ks = [z3.BitVec(eng.fresh_name("fk"), 64) for _ in range(depth)]
@@ -344,7 +344,13 @@ def verify_function(eng, ceval, fname, variant="", overrides=None, args=None, se
         site = ob.site
         if site.startswith(":"):
             site = site[1:]
-        ob.name = "%s#%s:%s" % (label, ob.kind, site)
+        # obligation names are line-free: all sites of one kind inside one function are merged (disjunction)
+        stable = re.sub(r"@[A-Za-z0-9_]+\.go:\d+", "", site)
+        stable = re.sub(r"@\?", "", stable)
+        if stable != site:
+            ob.info = dict(ob.info or {})
+            ob.info.setdefault("sites", []).append(site)
+        ob.name = "%s#%s:%s" % (label, ob.kind, stable)
         ob.func = f.short
         ob.variant = variant
         if ob.name in byname:
